@@ -382,6 +382,10 @@ impl AsServer<'_> {
     }
 }
 
+#[cfg(libp2p_verif)]
+#[path = "verif_c50.rs"]
+pub mod verif_c50;
+
 #[cfg(test)]
 mod test {
     use std::net::Ipv4Addr;
